@@ -139,6 +139,7 @@ fn code_data(c: &str) -> Data {
         "I7" => Data::Int(7),
         "I0" => Data::Int(0),
         "F0" => Data::Float(0.0),
+        "F0.5" => Data::Float(0.5),
         "Ibig" => Data::Int(9007199254740993),
         "F1.5" => Data::Float(1.5),
         "F2" => Data::Float(2.0),
@@ -387,7 +388,7 @@ pub fn drive(args: &Args) -> i32 {
             "String" => vec!["E", "S0", "Sx", "S12", "Spad"],
             "f64" => vec!["I7", "F1.5", "F2", "S12", "S1.5", "Sx"],
             "i64" => vec!["I7", "Ibig", "F2", "F1.5", "S12", "Sx"],
-            "bool" => vec!["I7", "I0", "F1.5", "F0", "B1", "B0", "STRUE", "Sfalse", "Strue", "STrue", "SFALSE", "SFalse", "E", "Sx"],
+            "bool" => vec!["I7", "I0", "F1.5", "F0", "F0.5", "B1", "B0", "STRUE", "Sfalse", "Strue", "STrue", "SFALSE", "SFalse", "E", "Sx"],
             "I64OrNone" | "F64OrNone" => vec!["E", "I7", "F2", "F1.5", "S12", "S1.5", "Sx", "B1", "B0", "STRUE"],
             _ => vec!["E", "S0", "I7", "F1.5", "Sx", "B1"],
         };
